@@ -470,7 +470,11 @@ NonCanon ==
   \* strings with length 0 (empty, not null)
   \cup {[ty |-> "String", s |-> <<I32(0)>>], [ty |-> "ByteString", s |-> <<I32(0)>>], [ty |-> "QualifiedName", s |-> <<T("u16", 0, "0"), I32(0)>>]}
 
+\* arrays at the element limit: a "rep" token stands for n zero bytes (n Byte / Boolean elements)
+BigArrays == {[ty |-> "Variant", n |-> n, s |-> <<U8(t + 128), I32(n), T("rep", n, "00")>>] : n \in {65534, 65535, 65536}, t \in {1, 3}}
 InitStreams ==
+  \/ \E x \in BigArrays : c = [kind |-> "stream", canon |-> TRUE, ty |-> x.ty, s |-> x.s,
+                                 dec |-> [ok |-> x.n <= MaxVariantArrayLength, val |-> NoVal, rest |-> <<>>, alloc |-> 0], reenc |-> TRUE]
   \/ \E x \in NonCanon : c = [kind |-> "stream", canon |-> FALSE, ty |-> x.ty, s |-> x.s, dec |-> Dec(x.ty, x.s), reenc |-> Reencode(x.ty, x.s)]
   \/ \E v \in Variants : c = [kind |-> "stream", canon |-> TRUE, ty |-> "Variant", s |-> Enc(v), dec |-> Dec("Variant", Enc(v)), reenc |-> Reencode("Variant", Enc(v))]
   \/ \E v \in XObjs \cup {x \in LTexts : LTextOk(x)} : c = [kind |-> "stream", canon |-> TRUE, ty |-> v.t, s |-> Enc(v), dec |-> Dec(v.t, Enc(v)), reenc |-> Reencode(v.t, Enc(v))]
